@@ -10,7 +10,8 @@ ASSUMPTIONS = ASSUME_PY + ["A-I18N: gettext falls back to identity (LANG=C)", "s
                            "whole-screen draws (separator, window, paging, prompt through the real scheduler and input thread) are compared by the session checks C17/C06, which share the model"]
 RULE = ("paging exhaustive heights 3..40 x line counts 0..200 (quick: 0..90); prompt edit sequences (0..7 add/update/remove/set_message operations over "
         "keys incl. the default r/c/q/h, multi-digit and non-ASCII keys) at widths 1..80; windows with 0..5 items (texts, separators, nested containers) and "
-        "titles; non-trivial = paging with >= 1 request, prompts with >= 2 options, windows with >= 2 items")
+        "titles; non-trivial = paging with >= 1 request, prompts with >= 2 options, windows with >= 2 items"
+        ' Later rounds: windows rendered one to three times; hidden screens with paged content (the continue request stays visible); one widget object shown by the window and again inside a container item of the same window.')
 
 
 from harness.props.common import run_impl as common_run_impl, model_case as common_model_case
